@@ -284,3 +284,39 @@ Definition rn_color_view_of (c : color) : rn_color_view :=
   | CoAnsi256 n => RvAnsi256 n
   | CoRgb r g b => RvRgb (r, g, b)
   end.
+
+(* ---- vocabulary of the function translator, part 2 (core::fmt / io::Write side of Generated/RenderFn.v).
+   Definitions only; nothing above uses them. *)
+
+(* the Formatter the translated code works on: the hand model's [rn_fmt] over a sink (the `dyn fmt::Write` a
+   Formatter wraps) that answers each write_str from a script -- [true] / exhausted: the text is appended, Ok(());
+   [false]: fmt::Error, nothing appended.  A String / Vec sink is the empty script. *)
+Record rn_fmtr : Set := mkRnFmtr { fr_fmt : rn_fmt; fr_script : list bool }.
+Definition fr_alternate (f : rn_fmtr) : bool := fm_alternate (fr_fmt f).          (* Formatter::alternate *)
+(* Formatter::write_str as the translated code calls it: the new formatter and the fmt::Result *)
+Definition rn_fw_write_str (f : rn_fmtr) (s : list N) : rn_fmtr * (unit + unit) :=
+  match fr_script f with
+  | false :: t => (mkRnFmtr (fr_fmt f) t, inr tt)
+  | true :: t => (mkRnFmtr (rn_f_write_str (fr_fmt f) s) t, inl tt)
+  | [] => (mkRnFmtr (rn_f_write_str (fr_fmt f) s) [], inl tt)
+  end.
+
+(* struct NullFormatter(&'static str), struct StyleDisplay(Style): the field itself *)
+Definition rn_nf_f0 (x : list N) : list N := x.
+Definition rn_nf_new (x : list N) : list N := x.
+Definition rn_sd_f0 (s : style) : style := s.
+Definition rn_sd_new (s : style) : style := s.
+
+(* the colour slots of a Style read / written as the Rust enum (rn_color_view) *)
+Definition rn_color_of_view (v : rn_color_view) : color :=
+  match v with
+  | RvAnsi a => CoAnsi a
+  | RvAnsi256 i => CoAnsi256 i
+  | RvRgb (r, g, b) => CoRgb r g b
+  end.
+Definition rn_st_fg (s : style) : option rn_color_view := option_map rn_color_view_of (st_fg s).
+Definition rn_st_bg (s : style) : option rn_color_view := option_map rn_color_view_of (st_bg s).
+Definition rn_st_ul (s : style) : option rn_color_view := option_map rn_color_view_of (st_ul s).
+(* Style::fg_color / bg_color (translated in Generated/StyleFn.v over [color]; Model/Style.v st_fg_color) *)
+Definition rn_st_fg_color (s : style) (o : option rn_color_view) : style := st_fg_color s (option_map rn_color_of_view o).
+Definition rn_st_bg_color (s : style) (o : option rn_color_view) : style := st_bg_color s (option_map rn_color_of_view o).
